@@ -69,7 +69,8 @@ def run(project, chk):
     if loop is None:
         raise AnalysisError("make_readable_bulk: loop over the pairs parameter not found")
     it = loop["stmt"].iter
-    it_ok = (isinstance(it, ast.Name) and it.id == pairs_param) or (isinstance(it, ast.Call) and sc.resolve(it.func) == "builtins.enumerate" and len(it.args) == 1 and isinstance(it.args[0], ast.Name) and it.args[0].id == pairs_param and not it.keywords)
+    it_ok = (isinstance(it, ast.Name) and it.id == pairs_param) or (isinstance(it, ast.Call) and sc.resolve(it.func) == "builtins.enumerate" and 1 <= len(it.args) <= 2 and isinstance(it.args[0], ast.Name) and it.args[0].id == pairs_param
+                                                                        and all(k.arg == "start" for k in it.keywords))      # a start offset renumbers the entries, it does not reorder them
     chk.check(it_ok, "B1", fi.short, norm_text(it), project.loc(m, it), "the loop visits the entries of pairs once each, in order",
               how=f"iterable is {norm_text(it)}", message=f"the entry loop iterates {norm_text(it)}: entries are reordered, skipped or repeated")
     body_ids = set(loop["body"])
